@@ -384,8 +384,11 @@ func runGraph(prop string, mix opMix) func(s *Sim) {
 						return client.SendEdgePoints(a.Nc, n, p, data.Points{{Type: data.PointTypeTombstone, Time: t},
 							{Type: data.PointTypeNodeType, Text: typ, Time: t}}, true)
 					})
-				case 3: // first edge without a node type
+				case 3: // first edge without a node type (under a node, or aimed at the pseudo-parent "root")
 					p := pickNode()
+					if wl.Chance(1, 3) {
+						p = "root"
+					}
 					id := fmt.Sprintf("ghost%d", nOps)
 					t := nextT()
 					addOp(fmt.Sprintf("REFUSED first edge without type %s under %s", id, p), func(a *Actor) error {
